@@ -323,6 +323,11 @@ C16_TEXTS = {
     "indent": ["x = 1\n# c\ny = 2", 'def f():\n    """a\n    b\n    c"""\n    return 1\n', "a\n\n\nb", "\tx = 1\n", "x=1", "x=1\n",
                "s = 'é😀'; y\n", "\n\nx", "a # c\n", "f(\n)\n", "x = \\\n  1\n", "x\r\ny\n", "a\x0cb\nc", "a = ' '\nb c"],
 }
+# comment tokens of unusual kinds: disabled code, HTML-style markers, preprocessor lines, doc comments, shebang lines
+C16_TEXTS["brace"] += ["#if 0\nint dead() {\n  x;\n}\n#endif\nint f() {\n  return 1;\n}\n", "<!-- x\nfunction f() {\n}\n--> y\n",
+                       "#include <a.h>\n#pragma once\n#define M(x) \\\n  x\nint f(){}\n", "/** doc */ int f() {\n  /// t\n  return 1;\n}\n",
+                       "#!/usr/bin/env node\nx = 1\n"]
+C16_TEXTS["indent"] += ["#!/usr/bin/env python\n# -*- coding: utf-8 -*-\nx = 1\n", "x = 1  # type: ignore\n'''doc'''\n"]
 
 
 # ------------------------------------------------------------------------------------------- C04
